@@ -183,7 +183,11 @@ def cases(rng, tier, shard, nshards):
         n = int(rng.integers(1, 11))
         order = int(rng.integers(1, 11))
         u = rng.random()
-        if u < 0.5:
+        if u < 0.08:
+            x = int(rng.integers(-60, 61))                   # integer-typed x (the library hands np.asarray(x) to the generator)
+        elif u < 0.16:
+            x = [int(v) for v in rng.integers(-60, 61, size=int(rng.integers(1, 5)))]
+        elif u < 0.5:
             x = float(rng.choice([-1, 1]) * 10.0 ** rng.uniform(-3, 3)) if rng.random() < 0.9 else 0.0
         else:
             shape = [int(s) for s in rng.integers(1, 4, size=int(rng.integers(1, 3)))]
@@ -229,10 +233,13 @@ def run_case(case, ctx):
     kind, opts = case['kind'], case['opts']
     cls = dict(min=MinStepGenerator, max=MaxStepGenerator, c=CStepGenerator)[kind]
     x = np.asarray(case['x'], dtype=float)
+    x_lib = np.asarray(case['x'])            # integer dtype preserved, as Derivative.__call__ would pass it
+    if x_lib.dtype.kind in 'iu':
+        ctx.count('integer_typed_x_cases')
     method, n, order = case['method'], case['n'], case['order']
     try:
         gen = cls(**opts)
-        got = list(gen(x, method, n, order))
+        got = list(gen(x_lib, method, n, order))
     except Exception as exc:
         ctx.reject('generator_raised', observed=repr(exc))
         return
